@@ -280,7 +280,7 @@ func (e *Enc) lookup(x *ssa.Lookup) {
 		e.assert(eq(vc, v))
 		e.refBound(vc, t.Elem(), e.st)
 		if vs == sVal {
-			e.assert(fmt.Sprintf("(wfVal %s)", vc))
+			e.fact(fmt.Sprintf("(wfVal %s)", vc))
 		}
 		if x.CommaOk {
 			e.tuples[x] = []TV{{vc, vs, t.Elem()}, {has, sBool, types.Typ[types.Bool]}}
@@ -310,10 +310,10 @@ func (e *Enc) unop(x *ssa.UnOp) {
 		if p.Kind != pLocal {
 			e.refBound(c, x.Type(), e.st)
 			if s == sVal {
-				e.assert(fmt.Sprintf("(wfVal %s)", c))
+				e.fact(fmt.Sprintf("(wfVal %s)", c))
 			}
 			if s == sSlice {
-				e.assert(fmt.Sprintf("(and (>= (slen %s) 0) (>= (sbase %s) 0) (=> (= (sbase %s) 0) (= (slen %s) 0)))", c, c, c, c))
+				e.fact(fmt.Sprintf("(and (>= (slen %s) 0) (>= (sbase %s) 0) (=> (= (sbase %s) 0) (= (slen %s) 0)))", c, c, c, c))
 			}
 		}
 	case token.NOT:
@@ -588,13 +588,13 @@ func (e *Enc) convert(x *ssa.Convert) {
 		a := e.fresh("bytearr", "(Array Int Int)")
 		e.set(k, store(e.get(e.st, k), r, a))
 		sl := fmt.Sprintf("(mkslice %s (str.len %s))", r, v.S)
-		e.assert(eq(fmt.Sprintf("(bytesStr %s (str.len %s))", a, v.S), v.S))
+		e.fact(eq(fmt.Sprintf("(bytesStr %s (str.len %s))", a, v.S), v.S))
 		e.setVal(x, sl)
 	case fs == sSlice && ts == sString:
 		a := sel(e.get(e.st, e.arrKey(sInt)), "(sbase "+v.S+")")
 		c := e.fresh(x.Name(), sString)
 		e.assert(eq(c, fmt.Sprintf("(bytesStr %s (slen %s))", a, v.S)))
-		e.assert(eq(fmt.Sprintf("(str.len %s)", c), fmt.Sprintf("(slen %s)", v.S)))
+		e.fact(eq(fmt.Sprintf("(str.len %s)", c), fmt.Sprintf("(slen %s)", v.S)))
 		e.vals[x] = TV{c, sString, x.Type()}
 	case fs == sInt && ts == sString:
 		// string(rune)
@@ -765,7 +765,7 @@ func (e *Enc) next(x *ssa.Next) {
 		e.assume(imp(ok, and(has(k), not(sel(visited, k)), eq(v, fmt.Sprintf("(get_%s (select %s %s))", opt, contents, k)))))
 		e.assume(imp(not(ok), fmt.Sprintf("(forall ((kk %s)) (=> %s (select %s kk)))", rec.kSort, has("kk"), visited)))
 		if rec.vSort == sVal {
-			e.assert(fmt.Sprintf("(wfVal %s)", v))
+			e.fact(fmt.Sprintf("(wfVal %s)", v))
 		}
 		e.refBound(v, rec.mapT.Elem(), e.st)
 		e.set(rec.key, ite(ok, store(visited, k, "true"), visited))
